@@ -1002,6 +1002,8 @@ class Emitter:
                     vv.const = False
                     return pad + "%s = %s;" % (vv.decl(name), txt)
             self.cur["refs"][v["id"]] = True
+            if self._strip(init[0]).get("kind") == "ConditionalOperator":
+                return pad + "%s = %s;" % (vt.decl(name), self.addr_of(init[0]))      # T &r = c ? x : y
             return pad + "%s = &(%s);" % (vt.decl(name), self.lvalue(init[0]))
         st = "static " if v.get("storageClass") == "static" else ""
         if st and init and self._strip_all(init[0]).get("kind") == "StringLiteral" and vt.ptr == 1 and not vt.dims and \
